@@ -4,12 +4,10 @@
 
    Byte strings enter through the decoder oracle ([wire]: garbage | an envelope with a version
    and either no usable payload or a decoded message); every theorem quantifies over all of
-   them. STATE OF THE TREE: the tree under test still runs the key-share validator and the
-   Primev handler of the pinned tree, modelled faithfully as legacy_validate_shares /
-   legacy_handle_commit (Corr/Gossip.v replays the cases on them); for them the property is
-   REFUTED at the end of this file (defects D1 and D5, open in known_findings/C05.json).
-   [combined] / [handle] contain the proposed repairs; C05_validate_total and C05_handle_total
-   are about those. The signature validators are the ones repaired under C06. *)
+   them. The model follows the code after the repairs committed in /repo ("fix: key shares
+   validation rejects a keyper index outside the DKG result" 2767adb0877f, "fix: getBidderNodeAddress
+   refuses a signature that is not 65 bytes long" 048a131b7e58, and the C06 repairs of the signature
+   validators). The functions of the pinned tree are kept (legacy_...) and refuted at the end. *)
 From Coq Require Import List NArith ZArith Bool Lia.
 From Verif Require Import Lib.Bytes Model.EpochKG Model.EpochKGLabels Model.EpochKGHandler Model.KeysSig
      Model.Gossip Model.GossipMisc Proofs.EpochKGHandler Proofs.Gossip Proofs.GossipTotal Proofs.GossipHandle.
